@@ -35,7 +35,8 @@ def bound(tier):
                 kinds=["positive (no bases)", "complex (bases)", "mixed (bases, reduced)"], data_forms=FORMS, datasets=VARIANTS,
                 randperm="all N! answers for N<=4, identity+transpositions+reversal+rotation beyond",
                 randint="all answers when <= 256, structured menu beyond",
-                exploration="full tree when <= 400 executions, else deviation bound 1")
+                exploration="full tree when <= 400 executions, else deviation bound 1",
+                extra=["bases without any all-Z row (refusal accepted, training from rotated rows not)", "integer arguments as numpy integers"])
 
 
 def plan(tier, seed):
@@ -60,6 +61,12 @@ def plan(tier, seed):
                         for form, variant in combos:
                             items.append(dict(kind=kind, N=N, pb=pb, nb=nb, epochs=ep, form=form, variant=variant))
                             i += 1
+    # the integer arguments given as numpy integers (an element of a parameter sweep array, the result of .sum())
+    for kind in ("positive", "complex", "mixed"):
+        for N, pb, nb in ((3, 2, 1), (3, 1, 2), (4, 2, 3), (2, 2, 1), (3, 3, None)):
+            if kind == "mixed" and N > 3:
+                continue
+            items.append(dict(kind=kind, N=N, pb=pb, nb=nb, epochs=2 if kind != "mixed" else 1, form=FORMS[0], variant=VARIANTS[0], npints=True))
     # bases without a single all-Z row: the chains may only start from reference-basis rows, and there are none -
     # the library may refuse (it does, before the first batch) but must not start chains from rotated rows
     for kind in ("complex", "mixed"):
@@ -108,7 +115,10 @@ def run_fit(cfg, tape, acc, record=None):
     kw = dict(input_bases=bases) if with_bases else {}
     try:
         with Owned(dec):
-            call(st.fit, data, epochs=ep, pos_batch_size=pb, neg_batch_size=nb, k=1, lr=0.05, callbacks=[cb], **kw)
+            if cfg.get("npints"):
+                call(st.fit, data, epochs=np.int64(ep), pos_batch_size=np.int64(pb), neg_batch_size=None if nb is None else np.int32(nb), k=np.int64(1), lr=0.05, callbacks=[cb], **kw)
+            else:
+                call(st.fit, data, epochs=ep, pos_batch_size=pb, neg_batch_size=nb, k=1, lr=0.05, callbacks=[cb], **kw)
     except LibRaised as e:
         if cfg["variant"] == "no-z" and not seen:
             acc.outcome("no-reference-rows:refused:" + e.kind)  # refusing such data before any batch is legitimate
@@ -219,7 +229,7 @@ def run_item(item):
 
 def replay(case):
     acc = Acc()
-    cfg = {k: case[k] for k in ("kind", "N", "pb", "nb", "epochs", "form", "variant")}
+    cfg = {k: case[k] for k in ("kind", "N", "pb", "nb", "epochs", "form", "variant", "npints") if k in case}
     tp, viols = T.replay(lambda t: run_fit(cfg, t, acc), case["tape"])
     acc.ev(1)
     for sig, detail in viols:
